@@ -253,7 +253,11 @@ def run_case(case):
     ps = sorted(set([1.0, 1e-9, 0.5, 0.8] + [float(x) for x in rng.uniform(0, 1, size=4)] + [float(rng.uniform(0.99, 1.0))]))
     prev = None
     for p in ps:
-        lev, area = extract_percentile_contour(fld, grid, pct=p, level=lvl)
+        try:
+            lev, area = extract_percentile_contour(fld, grid, pct=p, level=lvl)
+        except Exception as e:  # noqa - a fraction in (0, 1] on a non-negative field is inside the stated domain
+            viol.append({"what": "percentile_contour_raises", "p": p, "exc": f"{type(e).__name__}: {str(e)[:160]}", "field": fkind, "shape": f.shape, "form": form})
+            continue
         counters["percentile_calls"] += 1
         m, explev, slack, svals = brute_percentile(f.ravel(), p)
         count = area / cell
@@ -261,6 +265,10 @@ def run_case(case):
             viol.append({"what": "area_not_count_times_cell", "p": p, "area": area, "cell": cell, "form": form})
             continue
         count = int(round(count))
+        if not 1 <= count <= n:
+            viol.append({"what": "percentile_count", "p": p, "got_cells": count, "expected_cells": m, "cells_in_field": n, "field": fkind, "shape": f.shape,
+                         "form": form, "note": "area is not a number of cells of the field"})
+            continue
         band = slack <= 8 * n * EPS
         if band:
             counters["in_rounding_band"] += 1
@@ -280,7 +288,11 @@ def run_case(case):
         prev = (lev, area)
         # scale covariance (power of two: exact; arbitrary factor: to rounding, outside the band)
         for s in (2.0 ** int(rng.integers(-20, 20)), float(rng.uniform(0.1, 10))):
-            lev2, area2 = extract_percentile_contour(fld * s, grid, pct=p, level=lvl)
+            try:
+                lev2, area2 = extract_percentile_contour(fld * s, grid, pct=p, level=lvl)
+            except Exception as e:  # noqa
+                viol.append({"what": "percentile_contour_raises", "p": p, "scaled_by": s, "exc": f"{type(e).__name__}: {str(e)[:160]}", "field": fkind, "form": form})
+                continue
             counters["percentile_calls"] += 1
             exact = math.log2(s).is_integer()
             if exact or not band:
